@@ -53,9 +53,9 @@ func c14Handler(script []c14op, calls *int) http.Handler {
 			case "status":
 				w.WriteHeader(op.arg)
 			case "write-valid":
-				w.Write([]byte(`{"ok":true,"m":"` + c14Marker + `"}`))
+				c14WriteScratch(w, `{"ok":true,"m":"`+c14Marker+`"}`)
 			case "write-invalid":
-				w.Write([]byte(`{"bad":"` + c14Marker + `"}`))
+				c14WriteScratch(w, `{"bad":"`+c14Marker+`"}`)
 			case "flush":
 				if f, ok := w.(http.Flusher); ok {
 					f.Flush()
@@ -63,6 +63,17 @@ func c14Handler(script []c14op, calls *int) http.Handler {
 			}
 		}
 	})
+}
+
+// c14WriteScratch writes through a buffer the handler owns and overwrites right after the call, as handlers that stream
+// through a reused buffer do (io.Writer: "Write must not retain p").
+func c14WriteScratch(w http.ResponseWriter, text string) {
+	buf := make([]byte, len(text), len(text)+64)
+	copy(buf, text)
+	w.Write(buf)
+	for i := range buf {
+		buf[i] = '#'
+	}
 }
 
 func c14Doc() gen.S {
@@ -88,7 +99,7 @@ type c14Witness struct {
 func init() {
 	core.Register(&core.Check{
 		ID:   "C14",
-		Rule: "all handler scripts of length 0..4 (quick; 0..6 in the thorough tier: 597,871 scripts) over 9 operations {set Content-Type, set required X-Req, WriteHeader(200|201|500|404), Write(valid JSON chunk), Write(schema-violating chunk), Flush} (7381 scripts) x request classes {valid, invalid parameter, unrouted path, undeclared method} x strict on/off x default/custom OnErr+OnLog callbacks, through Validator.Middleware over the gorillamux router; plus the request gate of ValidationHandler (legacy router, file-loaded document). For every case the bare handler is run against the same kind of recorder (differential oracle), ValidateResponse on the bare result defines response validity, the handler invocation count is recorded. Distinct = (script, request class, strict, callbacks, wrapper); all are non-trivial (the empty script included).",
+		Rule: "all handler scripts of length 0..4 (quick; 0..6 in the thorough tier: 597,871 scripts) over 9 operations {set Content-Type, set required X-Req, WriteHeader(200|201|500|404), Write(valid JSON chunk), Write(schema-violating chunk), Flush} (7381 scripts) x request classes {valid, invalid parameter, unrouted path, undeclared method} x strict on/off x default/custom OnErr+OnLog callbacks, through Validator.Middleware over the gorillamux router (one Validator and wrapped handler per configuration serve all cases in sequence; handlers write through a scratch buffer they overwrite after each Write); plus the request gate of ValidationHandler (legacy router, file-loaded document). For every case the bare handler is run against the same kind of recorder (differential oracle), ValidateResponse on the bare result defines response validity, the handler invocation count is recorded. Distinct = (script, request class, strict, callbacks, wrapper); all are non-trivial (the empty script included).",
 		Assumptions: []string{
 			"client transcript = what an httptest.ResponseRecorder observes (effective status = first WriteHeader else 200 at first Write or at the end; body = concatenated writes)",
 			"response headers set by the handler are not covered by the statement (only status code and body bytes)",
@@ -174,6 +185,16 @@ func scriptNames(s []c14op) []string {
 	return out
 }
 
+type c14live struct {
+	handler  http.Handler
+	script   []c14op
+	calls    int
+	logCalls int
+	errCalls []string
+}
+
+var c14Live = map[string]*c14live{}
+
 type c14optset struct {
 	name string
 	o    openapi3filter.Options
@@ -212,31 +233,40 @@ func c14Case(c *core.Ctx, router routers.Router, script []c14op, cls c14reqClass
 			respValid = openapi3filter.ValidateResponse(bgCtx, rin) == nil
 		}
 	}
-	// through the middleware
-	calls := 0
-	logCalls := 0
-	var errCalls []string
-	opts := []openapi3filter.ValidatorOption{openapi3filter.Strict(strict), openapi3filter.ValidationOptions(optset.o)}
-	if custom {
-		opts = append(opts, openapi3filter.OnErr(func(_ context.Context, w http.ResponseWriter, status int, code openapi3filter.ErrCode, _ error) {
-			errCalls = append(errCalls, fmt.Sprintf("%d/%d", status, code))
-			w.WriteHeader(status)
-			w.Write([]byte("custom-error"))
-		}), openapi3filter.OnLog(func(context.Context, string, error) { logCalls++ }))
-	} else {
-		opts = append(opts, openapi3filter.OnLog(func(context.Context, string, error) { logCalls++ }))
+	// through the middleware: one Validator and one wrapped handler per configuration serve every case of the shard
+	// (a server builds them once); the handler behaves as the current case's script says
+	key := fmt.Sprintf("%p/%v/%v/%d", router, strict, custom, oi)
+	live := c14Live[key]
+	if live == nil {
+		live = &c14live{}
+		opts := []openapi3filter.ValidatorOption{openapi3filter.Strict(strict), openapi3filter.ValidationOptions(optset.o)}
+		if custom {
+			opts = append(opts, openapi3filter.OnErr(func(_ context.Context, w http.ResponseWriter, status int, code openapi3filter.ErrCode, _ error) {
+				live.errCalls = append(live.errCalls, fmt.Sprintf("%d/%d", status, code))
+				w.WriteHeader(status)
+				w.Write([]byte("custom-error"))
+			}), openapi3filter.OnLog(func(context.Context, string, error) { live.logCalls++ }))
+		} else {
+			opts = append(opts, openapi3filter.OnLog(func(context.Context, string, error) { live.logCalls++ }))
+		}
+		live.handler = openapi3filter.NewValidator(router, opts...).Middleware(http.HandlerFunc(func(w http.ResponseWriter, r *http.Request) {
+			c14Handler(live.script, &live.calls).ServeHTTP(w, r)
+		}))
+		c14Live[key] = live
 	}
-	v := openapi3filter.NewValidator(router, opts...)
+	live.script, live.calls, live.logCalls, live.errCalls = script, 0, 0, nil
 	rec := httptest.NewRecorder()
 	req := httptest.NewRequest(cls.method, cls.target, nil)
 	c.Eval()
 	mk := func(got, want string) c14Witness {
-		return c14Witness{Script: scriptNames(script), Request: cls.method + " " + cls.target, Strict: strict, Custom: custom, Wrapper: "Validator.Middleware", Got: got, Want: want, HandlerN: calls}
+		return c14Witness{Script: scriptNames(script), Request: cls.method + " " + cls.target, Strict: strict, Custom: custom, Wrapper: "Validator.Middleware", Got: got, Want: want, HandlerN: live.calls}
 	}
 	feat := func(kind string) map[string]string {
 		return map[string]string{"kind": kind, "request": cls.name, "strict": fmt.Sprint(strict), "custom": fmt.Sprint(custom), "options": optset.name}
 	}
-	if pi := core.Guard(func() { v.Middleware(c14Handler(script, &calls)).ServeHTTP(rec, req) }); pi != nil {
+	pi := core.Guard(func() { live.handler.ServeHTTP(rec, req) })
+	calls, logCalls, errCalls := live.calls, live.logCalls, live.errCalls
+	if pi != nil {
 		f := core.PanicFeatures(pi)
 		f["strict"] = fmt.Sprint(strict)
 		c.Violate(f, mk(pi.Value, "no panic"), desc+"\n"+pi.Value+"\n"+core.Truncate(pi.Stack, 2500))
